@@ -78,7 +78,7 @@ func TypeOf(x interface{}) (string, error) {
 	}
 
 	switch x.(type) {
-	case *interface{}:
+	case nil, *interface{}:
 		return "null", nil
 	}
 
